@@ -284,6 +284,12 @@ func swapInGapsNs(seq []byte) []byte {
 		}
 	}
 
+	// if no base is aligned at all, every unmapped position is external
+	if firstLetter {
+		firstLetterIndx = len(seq)
+		lastLetterIndx = len(seq)
+	}
+
 	for i, L := range seq {
 		if i < firstLetterIndx {
 			if L == '*' {
